@@ -1,4 +1,4 @@
-import Sourmash.Lemmas.SetOpsSk
+import Sourmash.Lemmas.SetOpsMoreB
 /-! Property C03 — sketch operations mirror set operations on the underlying data.
 
 Property theorems only (helper lemmas: `Lemmas/SetOps*.lean`).  They are about the code-shaped model
@@ -138,5 +138,95 @@ theorem reject_all (k : Kind) (a b : Sk) (e : Err) (hc : checkCompatible a b = .
       hc, bind, Except.bind]
 example : checkCompatible exA { exB with seed := 7 } = .error .MismatchSeed := by
   simp [checkCompatible, exA, exB]
+
+
+/-! ### sketching is a homomorphism -/
+
+/-- an empty scaled sketch (what `new(scaled, …)` returns for `scaled ≥ 1`) -/
+def exE : Sk := { num := 0, maxHash := 100, ksize := 21, seed := 42, mol := .dna, mins := [], abunds := some [] }
+theorem exE_sc : Sc exE := ⟨⟨by decide, by intro ab h; cases h; rfl⟩, rfl, by decide⟩
+
+/-- **T-sketch**: inserting a multiset of (hash, abundance) pairs, in any order and with repetitions,
+into an empty scaled sketch of either container type leaves exactly the sketch the specification
+defines: the distinct hashes under the ceiling, sorted, each with the sum of its abundances.
+(`Sc e`: representation invariant, `num = 0`, ceiling `≠ 0`; abundances `≠ 0` — abundance 0 means
+"remove" for the vector type and "ignore" for the tree type, see the model.) -/
+theorem sketch_spec (k : Kind) (e : Sk) (he : Sc e) (hemp : e.mins = []) (items : List (Nat × Nat))
+    (hpos : ∀ p ∈ items, p.2 ≠ 0) :
+    (e.addManyAb k items).mins = sketchKeys 0 e.maxHash (items.map Prod.fst) ∧
+    (e.abunds.isSome → ∀ h, (e.addManyAb k items).ab h = if h ≤ e.maxHash then total items h else 0) :=
+  fold_is_spec k e he hemp items hpos
+example : Sc exE ∧ exE.mins = [] ∧ ∀ p ∈ [((7 : Nat), (2 : Nat)), (300, 1), (7, 3)], p.2 ≠ 0 :=
+  ⟨exE_sc, rfl, by decide⟩
+
+/-- **T-merge_hom** (scaled): sketching two datasets separately and merging gives the same sketch —
+hashes and summed abundances, and every parameter — as sketching their concatenation. -/
+theorem merge_hom (k : Kind) (e : Sk) (he : Sc e) (hemp : e.mins = []) (A B : List (Nat × Nat))
+    (hA : ∀ p ∈ A, p.2 ≠ 0) (hB : ∀ p ∈ B, p.2 ≠ 0) :
+    (e.addManyAb k A).merge k (e.addManyAb k B) = .ok (e.addManyAb k (A ++ B)) :=
+  merge_hom_fold k e he hemp A B hA hB
+example : Sc exE ∧ exE.mins = [] ∧ (∀ p ∈ [((7 : Nat), (2 : Nat)), (300, 1)], p.2 ≠ 0) ∧
+    (∀ p ∈ [((7 : Nat), (3 : Nat)), (9, 1)], p.2 ≠ 0) := ⟨exE_sc, rfl, by decide, by decide⟩
+
+/-- **T-add_from / add_many**: adding hashes one by one (abundance 1 each) inserts exactly those under
+the ceiling — `add_many` is `add_many_with_abund` with abundance 1, `add_from` is `add_many` over the
+other sketch's hashes (no compatibility check in the code, hence none here). -/
+theorem add_many_keys (k : Kind) (t : Sk) (ht : Sc t) (hs : List Nat) (z : Nat) :
+    z ∈ (t.addMany k hs).mins ↔ z ∈ t.mins ∨ (z ∈ hs ∧ z ≤ t.maxHash) := by
+  rw [addMany_eq]
+  obtain ⟨_, _, _, _, _, _, x7, _⟩ := fold_scaled k (hs.map (fun h => (h, 1))) t ht (by simp)
+  rw [x7]
+  constructor
+  · rintro (h | ⟨p, hp, rfl, hle⟩)
+    · exact Or.inl h
+    · obtain ⟨a, ha, rfl⟩ := List.mem_map.1 hp
+      exact Or.inr ⟨ha, hle⟩
+  · rintro (h | ⟨ha, hle⟩)
+    · exact Or.inl h
+    · exact Or.inr ⟨(z, 1), List.mem_map.2 ⟨z, ha, rfl⟩, rfl, hle⟩
+example : Sc exE := exE_sc
+
+/-! ### subtraction, inflation -/
+
+/-- **T-subtract**: `remove_from` / `remove_many` leave the hashes `a \ b` (and keep the
+representation invariant, i.e. the abundance vector loses the same positions). -/
+theorem subtract (a b : Sk) (wa : a.WF) :
+    (a.removeFrom b).mins = diff a.mins b.mins ∧ (a.removeFrom b).WF :=
+  removeMany_mins b.mins wa
+theorem subtract_many (a : Sk) (hs : List Nat) (wa : a.WF) :
+    (a.removeMany hs).mins = diff a.mins hs ∧ (a.removeMany hs).WF :=
+  removeMany_mins hs wa
+example : exA.WF := exA_wf
+
+/-- **T-inflate**: `inflate` keeps the hashes `a ∩ b`, gives each the abundance it has in `b`, and
+turns abundance tracking on; `inflated_abundances` returns those abundances and their sum; a source
+without abundances is refused. -/
+theorem inflate (a b : Sk) (ab : List Nat) (wa : a.WF) (wb : b.WF)
+    (hc : checkCompatible a b = .ok ()) (hab : b.abunds = some ab) :
+    a.inflate b = .ok { a with mins := inter a.mins b.mins, abunds := some ((inter a.mins b.mins).map b.ab) } ∧
+    a.inflatedAbundances b =
+      .ok ((inter a.mins b.mins).map b.ab, ((inter a.mins b.mins).map b.ab).foldl (· + ·) 0) :=
+  inflate_ok wa wb hc hab
+example : exA.WF ∧ exB.WF ∧ checkCompatible exA exB = .ok () ∧ exB.abunds = some [4, 1] :=
+  ⟨exA_wf, exB_wf, exAB_compat, rfl⟩
+theorem inflate_needs_abundance (a b : Sk) (hc : checkCompatible a b = .ok ()) (hab : b.abunds = none) :
+    a.inflate b = .error .NeedsAbundanceTracking ∧
+    a.inflatedAbundances b = .error .NeedsAbundanceTracking :=
+  inflate_untracked hc hab
+example : checkCompatible exA { exB with abunds := none } = .ok () := by simp [checkCompatible, exA, exB]
+
+/-- **T-isect** (num sketches): the common hashes are those of `a ∩ b` that lie in the bottom-`num`
+of the union, and the reported size is that of this bottom-`num` sketch. -/
+theorem isect_num (k : Kind) (a b : Sk) (wa : a.WF) (wb : b.WF) (hn : a.num ≠ 0) (hm : a.maxHash = 0)
+    (hsz : a.mins.length ≤ a.num) (hc : checkCompatible a b = .ok ()) :
+    intersection k a b =
+      .ok (inter (inter a.mins b.mins) (bottom a.num (union a.mins b.mins)),
+           (bottom a.num (union a.mins b.mins)).length) ∧
+    intersectionSize k a b =
+      .ok ((inter (inter a.mins b.mins) (bottom a.num (union a.mins b.mins))).length,
+           (bottom a.num (union a.mins b.mins)).length) :=
+  intersection_num k wa wb hn hm hsz hc
+example : exN.WF ∧ exN.num ≠ 0 ∧ exN.maxHash = 0 ∧ exN.mins.length ≤ exN.num ∧
+    checkCompatible exN exN = .ok () := ⟨exN_wf, by decide, rfl, by decide, by simp [checkCompatible]⟩
 
 end Sourmash.C03
